@@ -253,7 +253,8 @@ func GetFieldVal(compElts []ast.Expr, fieldName string, numFields int, index int
 // FuncIdentFromCallExpr return a function identified from a call expression, nil otherwise
 // nilable(result 0)
 func FuncIdentFromCallExpr(expr *ast.CallExpr) *ast.Ident {
-	switch fun := expr.Fun.(type) {
+	// The callee may be parenthesized, e.g., `(foo)(x)` or `(pkg.Foo)(x)`.
+	switch fun := ast.Unparen(expr.Fun).(type) {
 	case *ast.Ident:
 		return fun
 	case *ast.SelectorExpr:
